@@ -2214,7 +2214,8 @@ class Interp:
             inc = skip_copies(n.get("inc")) if isinstance(n.get("inc"), dict) else None
             ops = [cond.get("lhs"), cond.get("rhs")] if cond.get("k") == "binop" else cond.get("args", [])
             if inc is not None and len(ops) == 2:
-                endc = skip_copies(ops[1])
+                from .util import deref_local
+                endc = skip_copies(deref_local(self.fn, ops[1]))      # the end iterator may be hoisted into a local
                 if isinstance(endc, dict) and endc.get("k") == "call" and (endc.get("callee") or "").split("::")[-1] in ("end", "cend", "constEnd", "rend", "crend"):
                     cont = self.lvalue_path(endc.get("obj"))
                     itp = self.lvalue_path(ops[0])
